@@ -44,6 +44,7 @@ KINDS = {
     "dup_other":           ("C14.dup.node", "SCHEMA_DUPLICATE_NODE"),
     "dup_cross":           ("C14.dup.library_vs_standard", "SCHEMA_LIBRARY_INVALID"),
     "dup_unit_plain_copy": ("C14.dup.node", "SCHEMA_DUPLICATE_NODE"),
+    "dup_attrs":           ("C14.dup.node", "SCHEMA_DUPLICATE_NODE"),
     "undeclared_attr":     ("C14.attr.undeclared", "SCHEMA_ATTRIBUTE_INVALID"),
     "wrong_section_attr":  ("C14.attr.undeclared", "SCHEMA_ATTRIBUTE_INVALID"),
     "ref_tag":             ("C14.value.nonexistent_reference", "SCHEMA_ATTRIBUTE_VALUE_INVALID"),
@@ -207,6 +208,10 @@ def gen_cases(inv, all_bundled, rng, per_kind, successor=None):
             lib = inv.entries[sec][n]["lib"] if partnered else None
             add("dup_other", [{"op": "dup", "section": sec, "name": n, "newname": n, "parent": parent, "inlib": lib,
                                "attrs": attrs}], sec, token=n, what="second %s entry %s" % (sec, n))
+        # ---- second definition of a unit class / unit / modifier / value class / attribute / property that carries 0, 1, 2
+        #      or 3 of the original's own attributes, behind or in front of the original, next to it or far from it: a
+        #      duplicate whatever it carries
+        cases.extend(dup_attr_cases(inv, rng, per_kind))
         # ---- the same unit-symbol name written a second time without the unitSymbol attribute
         for n in sample([u for u in sorted(inv.entries["units"]) if "unitSymbol" in inv.entries["units"][u]["attrs"]]):
             lib = inv.entries["units"][n]["lib"] if partnered else None
@@ -371,6 +376,58 @@ def gen_cases(inv, all_bundled, rng, per_kind, successor=None):
                 sec, tag=n, attr="hedId", what="hedId %s -> %s in successor %s" % (inv.entries[sec][n]["attrs"]["hedId"], val, successor))
         cases.append({"kind": "control_successor", "edits": [retitle], "section": None, "expect": {}, "what": "unchanged successor copy"})
     return cases
+
+
+DUP_SECTIONS = ("unitClasses", "units", "unitModifiers", "valueClasses", "attributes", "properties")
+DUP_PLACES = ("after", "end", "before", "start")      # copy right behind / far behind / right in front of / far in front of the original
+
+
+def dup_attr_cases(inv, rng, per_kind):
+    """per section and per number k = 0..3 of carried attributes: entries that have at least k attributes of their own, the copy
+    carrying a k-subset of them with the original's values (quick: one entry, one subset, one place per (section, k), places
+    and routes in rotation; thorough: 3 entries x up to 4 k-subsets x all 4 places x both routes).  A copy of a library entry of a partnered schema is a
+    library entry too (inLibrary on top of the k attributes); a unit-symbol copy always keeps unitSymbol (its name is a symbol)"""
+    import itertools
+    out = []
+    partnered = bool(inv.with_standard)
+    quick = per_kind <= 3
+    n_case = 0
+    for sec in DUP_SECTIONS:
+        ents = inv.entries[sec]
+        for k in (0, 1, 2, 3):
+            pool = []
+            for n in sorted(ents):
+                own = sorted(a for a in ents[n]["attrs"] if a != "inLibrary")
+                must = ["unitSymbol"] if sec == "units" and "unitSymbol" in own else []
+                free = [a for a in own if a not in must]
+                if len(own) >= k >= len(must):
+                    pool.append((n, must, free))
+            if not pool:
+                continue
+            chosen = [pool[i] for i in sorted(rng.sample(range(len(pool)), min(len(pool), 1 if quick else 3)))]
+            for n, must, free in chosen:
+                subsets = [tuple(must) + c for c in itertools.combinations(free, k - len(must))]
+                if quick:
+                    subsets = [rng.choice(subsets)]
+                elif len(subsets) > 4:
+                    subsets = [subsets[i] for i in sorted(rng.sample(range(len(subsets)), 4))]
+                lib = ents[n]["lib"] if partnered else None
+                if sec == "unitClasses" and lib and k == 0:
+                    continue        # 'name {inLibrary}' alone is the documented way a library adds units to an existing class
+                for sub in subsets:
+                    attrs = {a: (True if ents[n]["attrs"][a] is True else str(ents[n]["attrs"][a])) for a in sub}
+                    places = [DUP_PLACES[n_case % 4]] if quick else DUP_PLACES
+                    for place in places:
+                        parent = None
+                        if sec == "units" and n_case % 3 == 2:
+                            parent = rng.choice(sorted(inv.class_units))       # the copy sits in another unit class
+                        n_case += 1
+                        out.append({"kind": "dup_attrs", "section": sec, "expect": {"tag": None, "attr": None, "token": n},
+                                    "edits": [{"op": "dup", "section": sec, "name": n, "newname": n, "parent": parent, "inlib": lib,
+                                               "attrs": attrs, "place": place}],
+                                    "what": "second %s entry %s carrying %d attribute(s) %s, %s the original"
+                                            % (sec, n, len(sub), list(sub), place), "nested_lib": False})
+    return out
 
 
 # ----------------------------------------------------------------------------------------------- execution (worker side)
@@ -685,10 +742,12 @@ def _work(chunk):
 def run(w: Workload):
     from hed.schema import load_schema, load_schema_version
     w.rule = ("Part A: every bundled standard/partnered schema x {load_schema_version, bundled file} x {warnings on, off}. "
-              "Part B: per schema x fault kind (16 kinds) a seeded sample of the positions where the kind can sit "
+              "Part B: per schema x fault kind (17 kinds) a seeded sample of the positions where the kind can sit "
               "(nodes, '#' nodes, units, unit classes, modifiers, value classes, attribute definitions); one fault per "
               "saved copy, written through the XML tree or the MediaWiki line; a case is distinct by (schema, route, kind, "
-              "position, seeded value)")
+              "position, seeded value); duplicates outside the tag tree (kind dup_attrs): per schema x section (unit classes, units, "
+              "modifiers, value classes, attributes, properties) x k = 0..3 carried attributes (a k-subset of the original's own, "
+              "with its values) x place (right behind / far behind / right in front of / far in front of the original) x route")
     allb = bundled_versions()
     scope = [b for b in allb if in_scope(b)]
     # ---------------- Part A
@@ -735,10 +794,11 @@ def run(w: Workload):
                 if case["kind"] in SCRIPT_KINDS and clause_of(case) == KINDS[case["kind"]][0]:
                     fault_pool.setdefault(version, {}).setdefault(case["kind"], []).append(case)
         for idx, case in enumerate(cases):
-            route = "xml" if (idx % 3 != 2) else "wiki"
-            work.append((version, route, idx, case))
-            meta[(version, route, idx)] = case
-            n_by_kind[case["kind"]] += 1
+            routes = ("xml", "wiki") if case["kind"] == "dup_attrs" and not w.quick else ("xml" if (idx % 3 != 2) else "wiki",)
+            for route in routes:
+                work.append((version, route, idx, case))
+                meta[(version, route, idx)] = case
+                n_by_kind[case["kind"]] += 1
     # longest schemas first, chunks interleaved so that every worker sees few distinct schemas
     by_schema = {}
     for item in work:
@@ -778,8 +838,10 @@ def run(w: Workload):
                        observed, expected)
     w.part("B: seeded faults", cases=len(work), exhaustive=False,
            bound="%d positions per (schema, kind) [x2 for node-level kinds], seeded by --seed; 2/3 through the XML copy, 1/3 "
-                 "through the MediaWiki copy; successor copies (8.4.0 of 8.3.0, score 2.1.0 of score_2.0.0) for 'changed hedId'"
-                 % per_kind, per_kind=dict(n_by_kind), slowest_case_s=round(slow, 2))
+                 "through the MediaWiki copy; successor copies (8.4.0 of 8.3.0, score 2.1.0 of score_2.0.0) for 'changed hedId'; "
+                 "dup_attrs: per schema x non-tag section x k=0..3 carried attributes %s"
+                 % (per_kind, "one entry, one k-subset, place and route in rotation" if w.quick else
+                    "3 entries x up to 4 k-subsets x 4 places (behind / in front of the original, adjacent / far) x both routes"), per_kind=dict(n_by_kind), slowest_case_s=round(slow, 2))
     w.part("C: script entry points over lists of schema files", cases=len(sjobs), exhaustive=False,
            bound="every faulty/clean pattern over lists of 1, 2 and 3 files (14 patterns: the fault in the first / middle / last file, in "
                  "several, in none)%s; clean files = released schemas %s saved as xml / mediawiki / hedtsv directory in rotation, faulty files "
